@@ -437,3 +437,55 @@ pub struct SkippedThenBound<T> {
 
 /// the generated combinatorial family (tools/gen_fixtures.py)
 pub mod generated;
+
+/// a rename target is any string: kebab-case, dotted, with a space, starting with a digit
+#[derive(TypeInfo, Encode)]
+pub struct RenamedOddly {
+    #[scale_info(rename = "dest-account")]
+    pub dest: u32,
+    #[codec(compact)]
+    #[scale_info(rename = "amount.free")]
+    pub amount: u64,
+    #[scale_info(rename = "2nd_memo")]
+    pub memo: bool,
+    #[scale_info(rename = "remark bytes")]
+    pub remark: Vec<u8>,
+    pub plain: u16,
+}
+
+#[derive(TypeInfo, Encode)]
+pub enum RenamedOddlyInVariants {
+    A {
+        #[scale_info(rename = "x-y")]
+        x: u8,
+        y: u8,
+    },
+    B,
+}
+
+/// generic definitions in contexts where the prelude names mean something else (or nothing)
+#[no_implicit_prelude]
+pub mod strict_ctx {
+    #[derive(::info::TypeInfo)]
+    pub struct Pair<K, V> {
+        pub key: K,
+        pub values: ::std::vec::Vec<V>,
+    }
+    #[derive(::info::TypeInfo)]
+    #[scale_info(skip_type_params(H))]
+    pub enum Tagged<H, T> {
+        Plain(T),
+        Marked { hasher: ::core::marker::PhantomData<H>, item: T },
+    }
+}
+
+pub mod shadowed_ctx {
+    pub enum Lattice { Some, None, Many }
+    pub use Lattice::*;
+    #[derive(::info::TypeInfo)]
+    #[scale_info(skip_type_params(U))]
+    pub struct Both<T, U> {
+        pub t: T,
+        pub u: ::core::marker::PhantomData<U>,
+    }
+}
